@@ -67,6 +67,20 @@ def simulate(b, assign, stop_pred):
             e = b.expr_of_operand(t["discr"], s)
             at = _atom(e)
             if at is None:
+                cv = b._const_discr2(blk, t)
+                if cv is not None:
+                    tgt = t["otherwise"]
+                    for av, tb in t["arms"]:
+                        if int(av) == cv:
+                            tgt = tb
+                    bb = tgt
+                    continue
+                if bb in b.debug_assert_blocks():
+                    # inside a debug_assert!: the assertion holds or the call panics — follow the edge that goes on
+                    alive = [x for x in b.succs(bb) if not diverges(b, x)]
+                    if len(alive) == 1:
+                        bb = alive[0]
+                        continue
                 # `?` desugaring and Option matches between the atoms: follow Continue / Ok edge
                 e2, enum, labels, oth = switch_on(b, bb)
                 if enum == "std::ops::ControlFlow" and "Continue" in labels:
